@@ -47,11 +47,19 @@ def shards(tier, prop):
         return [{'kind': 'py', 'module': 'vk.simh', 'fn': 'validate_fakepd', 'cond_timeout': 120, 'name': 'stub-validation:pandas'}]
     if prop in ('C12', 'C13', 'C19', 'C02', 'C03', 'C08'):
         out = timing_family(props, tier)
+        if prop in ('C12', 'C13'):
+            # the public API driven for a fixed horizon beyond completion, in one piece and with pauses
+            for a in ('queue', 'batch1'):
+                for hz in ([40], [1, 4, 40], [2, 3, 5, 40]):
+                    out.append(G('two', R_TWO, props, alg=a, horizon=hz))
         if prop == 'C12':     # a legal but degenerate setting (no global minimum): only the table column is asserted there
             out.append(G('two', [(0, 2), (2, 3), (3, 4), (0, 2), (0, 2), (1, 1), (2, 2), (5, 5)], props, alg='batch0split', machines=[10, 20]))
         if prop == 'C02':
             out += [G('two', R_TWO, props, alg=a) for a in ('reserve1', 'reserve2')]
         if prop == 'C03':
+            # plan-following algorithms on a static plan: tasks moved off their planned machine, predecessors on the same / another machine
+            RS = [(0, 2), (1, 2), (0, 1), (0, 2), (0, 2), (0, 2), (0, 2), (0, 2)]
+            out += [G('static', RS, props, T=400, alg=a) for a in ('greedy', 'dynamic')]
             # one predecessor feeding two successors over edges of different volume
             out += [G('three', R_THREE, props, alg=a, shape=sh) for a in ('queue', 'batch2') for sh in ('fork2', 'tri')]
             # edge volumes that are not whole multiples of the bandwidth (fractional transfer times)
@@ -85,6 +93,9 @@ def shards(tier, prop):
         for honest in (True, False):
             out.append(G('adv', [(0, 1), (1, 1), (0, 2), (-1, 2), (-1, 2), (-1, 2), (0, 2), (0, 0)], props, honest=honest))
         out.append(G('delay', [(0, 2), (1, 2), (1, 2), (0, 2), (0, 2), (0, 2), (0, 2), (0, 1)], props, alg='queue'))
+        # delayed tasks on a cluster with no spare machine: whatever is released at the planned finish is taken at once
+        out.append(G('delay', [(0, 2), (1, 2), (1, 2), (1, 2), (1, 2), (0, 3), (0, 3), (0, 1)], props, alg='queue', machines=[10, 20]))
+        out.append(G('delay', [(0, 2), (1, 2), (1, 2), (1, 2), (1, 2), (0, 3), (0, 3), (0, 1)], props, alg='batch2', machines=[10, 20]))
     elif prop == 'C09':
         for alg in ('batch1', 'batch2', 'reserve2'):
             out.append(G('two', R_TWO, props, alg=alg))
@@ -102,6 +113,8 @@ def shards(tier, prop):
             out.append(G('adv', [(0, 1), (1, 1), (0, 2), (-1, 2), (-1, 2), (-1, 2), (0, 2), (0, 0)], props, honest=honest))
     if prop == 'C07':
         out = [G('two', R_TWO, props, alg=a) for a in ALG3]
+        # workflows that complete out of the order in which they were handed to the scheduler
+        out += [G('singles', R_SINGLES, props, alg=a) for a in ('queue', 'batch3')]
     if prop in ('C05', 'C07', 'C08'):
         timings = [[1, 2, 2, 1, 1], [0, 1, 2, 0, 1], [2, 2, 1, 1, 0]] if tier == 'quick' else \
                   [[1, 2, 2, 1, 1], [0, 1, 2, 0, 1], [2, 2, 1, 1, 0], [0, 2, 2, 2, 0]]
